@@ -2,5 +2,604 @@
 
 package main
 
-func c42Main(n, big int) {}
-func c42Replay()         {}
+// C42: upgrade of older metabase formats.  A database is written by the current
+// code from a random history, observed, rewritten into the older format directly
+// with bbolt (base58 associate values, homomorphic-hash index keys, version 10; for
+// version 9 also: no per-container counters, the old global counters and the
+// container volume bucket), and opened again by the current code: once undisturbed
+// and once per poll of the init context with the context cancelled at that poll and
+// a second, undisturbed open afterwards.
+
+import (
+	"bufio"
+	"bytes"
+	"context"
+	"encoding/binary"
+	"encoding/json"
+	"io"
+	"os"
+	"path/filepath"
+	"sort"
+	"strconv"
+	"time"
+
+	"github.com/mr-tron/base58"
+	"github.com/nspcc-dev/bbolt"
+	"github.com/nspcc-dev/neofs-node/pkg/local_object_storage/blobstor/common"
+	meta "github.com/nspcc-dev/neofs-node/pkg/local_object_storage/metabase"
+	cid "github.com/nspcc-dev/neofs-sdk-go/container/id"
+	"github.com/nspcc-dev/neofs-sdk-go/object"
+	oid "github.com/nspcc-dev/neofs-sdk-go/object/id"
+	"go.uber.org/zap"
+)
+
+const c42Epoch = 5
+
+// object IDs of this check start with a non-zero byte: the base58 form of an ID with
+// nine or more leading zero bytes can be 32 characters long, which the migration
+// takes for an already converted value (see notes/C42.md).
+func id42(n int) oid.ID {
+	var id oid.ID
+	id[0] = 0xA5
+	id[30] = byte(n >> 8)
+	id[31] = byte(n)
+	return id
+}
+
+func un42(id oid.ID) int {
+	if id[0] != 0xA5 {
+		return -1
+	}
+	return int(id[30])<<8 | int(id[31])
+}
+
+type O42 struct {
+	C     int               `json:"c"`
+	ID    int               `json:"id"`
+	T     int               `json:"t"`
+	Size  uint64            `json:"sz"`
+	Exp   int64             `json:"exp"`
+	Assoc int               `json:"as"`
+	Attrs map[string]string `json:"attrs,omitempty"`
+	Mark  bool              `json:"mark,omitempty"` // MarkGarbage after the put
+}
+
+func build42(o *O42) *object.Object {
+	res := object.New(mkCID(o.C), owner)
+	res.SetID(id42(o.ID))
+	res.SetPayloadChecksum(zeroSum)
+	res.SetPayloadSize(o.Size)
+	res.SetType(types[o.T])
+	var attrs []object.Attribute
+	if o.Exp >= 0 {
+		attrs = append(attrs, object.NewAttribute(object.AttributeExpirationEpoch, strconv.FormatInt(o.Exp, 10)))
+	}
+	if o.Assoc > 0 {
+		attrs = append(attrs, object.NewAttribute(object.AttributeAssociatedObject, id42(o.Assoc).EncodeToString()))
+	}
+	ks := make([]string, 0, len(o.Attrs))
+	for k := range o.Attrs {
+		ks = append(ks, k)
+	}
+	sort.Strings(ks)
+	for _, k := range ks {
+		attrs = append(attrs, object.NewAttribute(k, o.Attrs[k]))
+	}
+	res.SetAttributes(attrs...)
+	return res
+}
+
+type Obs42 struct {
+	OK       bool        `json:"ok"` // Init succeeded
+	Exists   [][]int     `json:"exists"`
+	Locked   [][]int     `json:"locked"`
+	Assoc    [][]int     `json:"assoc"` // per container, per id: associated ID read back from the index (0 none, -1 undecodable)
+	All      [][]int     `json:"all"`   // unfiltered select, ordered
+	ByA      [][]int     `json:"bya"`   // select A == "x"
+	ByTrap   [][]int     `json:"bytrap"`
+	Total    [7]uint64   `json:"total"`
+	Cnt      [][7]uint64 `json:"cnt"`
+	Recount  [][7]uint64 `json:"recount"`
+	Bad      int         `json:"bad"`      // index inconsistencies found by the dump
+	HomoKeys []int       `json:"homo"`     // per container: homomorphic-hash entries left (ID->attribute index)
+	B58Keys  []int       `json:"b58"`      // per container: associate values that are not 32 raw bytes
+	RawKeys  []int       `json:"raw"`      // per container: associate values that are 32 raw bytes
+	Version  uint64      `json:"version"`  // stored version after close
+	OldKeys  int         `json:"oldkeys"`  // v9 leftovers after close: old counters, container volume bucket
+}
+
+const trapAttr = "$Object:homomorphicHashX"
+
+type allContainers struct{}
+
+func (allContainers) Exists(cid.ID) (bool, error) { return true, nil }
+
+// cntCtx counts the polls of Done() and reports cancellation from the cancelAt-th poll on.
+type cntCtx struct {
+	context.Context
+	n        *int
+	cancelAt int
+	closed   chan struct{}
+}
+
+func (c *cntCtx) Done() <-chan struct{} {
+	*c.n++
+	if c.cancelAt > 0 && *c.n >= c.cancelAt {
+		return c.closed
+	}
+	return nil
+}
+
+func (c *cntCtx) Err() error {
+	if c.cancelAt > 0 && *c.n >= c.cancelAt {
+		return context.Canceled
+	}
+	return nil
+}
+
+func open42(path string, es *epochState, ctx context.Context) (*meta.DB, error) {
+	opts := []meta.Option{
+		meta.WithPath(path),
+		meta.WithPermissions(0o600),
+		meta.WithEpochState(es),
+		meta.WithMaxBatchDelay(time.Microsecond),
+		meta.WithLogger(zap.NewNop()),
+		meta.WithContainers(allContainers{}),
+		meta.WithBoltDBOptions(&bbolt.Options{NoSync: true, NoFreelistSync: true, Timeout: 5 * time.Second}),
+	}
+	if ctx != nil {
+		opts = append(opts, meta.WithInitContext(ctx))
+	}
+	db := meta.New(opts...)
+	if err := db.Open(false); err != nil {
+		return db, err
+	}
+	return db, db.Init(common.ID{})
+}
+
+func observe42(db *meta.DB, nID int, full bool) *Obs42 {
+	o := &Obs42{OK: true}
+	lay := meta.VerifGetLayout()
+	tot, err := db.ObjectCounters()
+	must(err)
+	o.Total = cnt7(tot)
+	for c := 1; c <= 3; c++ {
+		d, err := db.VerifDumpContainer(mkCID(c))
+		must(err)
+		if d.Present && !d.Consistent {
+			o.Bad++
+		}
+		o.Bad += d.Unknown
+		o.Cnt = append(o.Cnt, cnt7(d.Counters))
+		rc, _, err := db.VerifRecount(mkCID(c))
+		must(err)
+		o.Recount = append(o.Recount, cnt7(rc))
+		homo, b58, raw := 0, 0, 0
+		assoc := make([]int, nID)
+		for _, a := range d.Attrs {
+			switch a.Key {
+			case lay.HomomorphicAttr:
+				homo++
+			case lay.AssociateAttr:
+				id := un42(a.ID)
+				v := -1
+				if len(a.Val) == 32 {
+					raw++
+					v = un42(oid.ID(a.Val))
+				} else {
+					b58++
+				}
+				if id >= 1 && id <= nID {
+					assoc[id-1] = v
+				}
+			}
+		}
+		o.HomoKeys = append(o.HomoKeys, homo)
+		o.B58Keys = append(o.B58Keys, b58)
+		o.RawKeys = append(o.RawKeys, raw)
+		o.Assoc = append(o.Assoc, assoc)
+		var ex, lk []int
+		for i := 1; i <= nID; i++ {
+			addr := oid.NewAddress(mkCID(c), id42(i))
+			ok, err := db.Exists(addr, false)
+			cl := viewClass(err)
+			if err == nil && !ok {
+				cl = vAbsent
+			}
+			ex = append(ex, cl)
+			if full || i <= 40 {
+				l, err := db.IsLocked(addr)
+				must(err)
+				if l {
+					lk = append(lk, 1)
+				} else {
+					lk = append(lk, 0)
+				}
+			}
+		}
+		o.Exists = append(o.Exists, ex)
+		o.Locked = append(o.Locked, lk)
+		sel := func(fs object.SearchFilters) []int {
+			ids := []int{}
+			addrs, err := db.Select(mkCID(c), fs)
+			must(err)
+			for _, a := range addrs {
+				ids = append(ids, un42(a.Object()))
+			}
+			sort.Ints(ids)
+			return ids
+		}
+		o.All = append(o.All, sel(nil))
+		var fa object.SearchFilters
+		fa.AddFilter("A", "x", object.MatchStringEqual)
+		o.ByA = append(o.ByA, sel(fa))
+		var ft object.SearchFilters
+		ft.AddFilter(trapAttr, "v", object.MatchStringEqual)
+		o.ByTrap = append(o.ByTrap, sel(ft))
+	}
+	return o
+}
+
+func copyFile(dst, src string) {
+	in, err := os.Open(src)
+	must(err)
+	defer in.Close()
+	out, err := os.Create(dst)
+	must(err)
+	_, err = io.Copy(out, in)
+	must(err)
+	must(out.Close())
+}
+
+func le64(v uint64) []byte {
+	b := make([]byte, 8)
+	binary.LittleEndian.PutUint64(b, v)
+	return b
+}
+
+// downgrade rewrites a current-format database into format version ver (9 or 10).
+func downgrade(path string, ver uint64, perturb bool) {
+	lay := meta.VerifGetLayout()
+	bdb, err := bbolt.Open(path, 0o600, &bbolt.Options{NoSync: true, NoFreelistSync: true, Timeout: 5 * time.Second})
+	must(err)
+	defer bdb.Close()
+	must(bdb.Update(func(tx *bbolt.Tx) error {
+		var names [][]byte
+		must(tx.ForEach(func(name []byte, _ *bbolt.Bucket) error {
+			if name[0] == lay.MetadataPrefix {
+				names = append(names, bytes.Clone(name))
+			}
+			return nil
+		}))
+		p2 := append(append([]byte{lay.PrefixAttrIDPlain}, lay.AssociateAttr...), 0)
+		for _, name := range names {
+			b := tx.Bucket(name)
+			var del, put [][]byte
+			c := b.Cursor()
+			for k, _ := c.First(); k != nil; k, _ = c.Next() {
+				switch {
+				case k[0] == 0 && len(k) == 33: // object ID: add the homomorphic hash indexes
+					id := k[1:]
+					h := make([]byte, 64)
+					for j := range h {
+						h[j] = 0x40 + (id[31]+byte(j))%50
+					}
+					put = append(put, bytes.Join([][]byte{{lay.PrefixAttrIDPlain}, []byte(lay.HomomorphicAttr), {0}, h, {0}, id}, nil))
+					put = append(put, bytes.Join([][]byte{{lay.PrefixIDAttr}, id, []byte(lay.HomomorphicAttr), {0}, h}, nil))
+				case bytes.HasPrefix(k, p2) && len(k) == len(p2)+32+1+32: // attribute->ID index of the associate attribute
+					val, id := k[len(p2):len(p2)+32], k[len(k)-32:]
+					del = append(del, bytes.Clone(k))
+					put = append(put, bytes.Join([][]byte{p2, []byte(base58.Encode(val)), {0}, id}, nil))
+				case k[0] == lay.PrefixIDAttr && len(k) > 33 && bytes.HasPrefix(k[33:], append([]byte(lay.AssociateAttr), 0)):
+					id := k[1:33]
+					val := k[33+len(lay.AssociateAttr)+1:]
+					if len(val) == 32 {
+						del = append(del, bytes.Clone(k))
+						put = append(put, bytes.Join([][]byte{{lay.PrefixIDAttr}, id, []byte(lay.AssociateAttr), {0}, []byte(base58.Encode(val))}, nil))
+					}
+				}
+			}
+			for _, k := range del {
+				must(b.Delete(k))
+			}
+			for _, k := range put {
+				must(b.Put(k, nil))
+			}
+			if ver == 9 {
+				for _, p := range lay.CounterPrefixes {
+					must(b.Delete([]byte{p}))
+				}
+			} else if perturb { // "GC mark double counting": the garbage counter of version 10 may be too high
+				gk := []byte{lay.CounterPrefixes[5]}
+				var cur uint64
+				if v := b.Get(gk); len(v) == 8 {
+					cur = binary.LittleEndian.Uint64(v)
+				}
+				must(b.Put(gk, le64(cur+3)))
+			}
+		}
+		info, err := tx.CreateBucketIfNotExists(lay.InfoBucket)
+		must(err)
+		must(info.Put(lay.VersionKey, le64(ver)))
+		if ver == 9 {
+			must(info.Put(lay.OldPhyCounterKey, le64(7)))
+			must(info.Put(lay.OldLogicCounterKey, le64(5)))
+			vb, err := tx.CreateBucketIfNotExists([]byte{lay.ContainerVolumePrefix})
+			must(err)
+			cn := mkCID(1)
+			must(vb.Put(cn[:], le64(123)))
+		}
+		return nil
+	}))
+}
+
+// afterClose reads what only a closed database shows: stored version and v9 leftovers.
+func afterClose(path string, o *Obs42) {
+	lay := meta.VerifGetLayout()
+	bdb, err := bbolt.Open(path, 0o600, &bbolt.Options{ReadOnly: true, Timeout: 5 * time.Second})
+	must(err)
+	defer bdb.Close()
+	must(bdb.View(func(tx *bbolt.Tx) error {
+		if info := tx.Bucket(lay.InfoBucket); info != nil {
+			if v := info.Get(lay.VersionKey); len(v) == 8 {
+				o.Version = binary.LittleEndian.Uint64(v)
+			}
+			if info.Get(lay.OldPhyCounterKey) != nil {
+				o.OldKeys++
+			}
+			if info.Get(lay.OldLogicCounterKey) != nil {
+				o.OldKeys++
+			}
+		}
+		if tx.Bucket([]byte{lay.ContainerVolumePrefix}) != nil {
+			o.OldKeys++
+		}
+		return nil
+	}))
+}
+
+// rawCounts scans a closed database: per container homomorphic / base58 / raw associate entries.
+func rawCounts(path string) (homo, b58, raw [3]int) {
+	lay := meta.VerifGetLayout()
+	bdb, err := bbolt.Open(path, 0o600, &bbolt.Options{ReadOnly: true, Timeout: 5 * time.Second})
+	must(err)
+	defer bdb.Close()
+	ph := append([]byte{lay.PrefixAttrIDPlain}, lay.HomomorphicAttr...)
+	pa := append(append([]byte{lay.PrefixAttrIDPlain}, lay.AssociateAttr...), 0)
+	must(bdb.View(func(tx *bbolt.Tx) error {
+		for c := 1; c <= 3; c++ {
+			cn := mkCID(c)
+			b := tx.Bucket(append([]byte{lay.MetadataPrefix}, cn[:]...))
+			if b == nil {
+				continue
+			}
+			cur := b.Cursor()
+			for k, _ := cur.First(); k != nil; k, _ = cur.Next() {
+				switch {
+				case bytes.HasPrefix(k, append(bytes.Clone(ph), 0)):
+					homo[c-1]++
+				case bytes.HasPrefix(k, pa):
+					if len(k) == len(pa)+32+1+32 {
+						raw[c-1]++
+					} else {
+						b58[c-1]++
+					}
+				}
+			}
+		}
+		return nil
+	}))
+	return
+}
+
+type Step42 struct {
+	K       int    `json:"k"`     // the init context reports cancellation at the k-th poll
+	Err1    bool   `json:"err1"`  // the interrupted Init failed
+	Homo    [3]int `json:"homo"`  // entries left after the interrupted Init
+	B58     [3]int `json:"b58"`
+	Raw     [3]int `json:"raw"`
+	Version uint64 `json:"version"` // version stored after the interrupted Init
+	Obs     *Obs42 `json:"obs"`     // after the second, undisturbed Init
+}
+
+type Case42 struct {
+	I        int      `json:"i"`
+	Ver      uint64   `json:"ver"`
+	Perturb  bool     `json:"perturb"`
+	NID      int      `json:"nid"`
+	Objs     []*O42   `json:"objs,omitempty"`
+	NObjs    int      `json:"nobjs"`
+	PutErrs  int      `json:"puterrs"`
+	Before   *Obs42   `json:"before"`
+	Homo0    [3]int   `json:"homo0"` // entries in the downgraded database
+	B580     [3]int   `json:"b580"`
+	After    *Obs42   `json:"after"`
+	Polls    int      `json:"polls"`
+	Resumed  []Step42 `json:"resumed"`
+}
+
+func gen42(r *rng, big int) ([]*O42, int) {
+	var objs []*O42
+	if big > 0 {
+		nreg := []int{400, 300}
+		nas := []int{big * 13 / 22, big * 9 / 22}
+		id := 0
+		for ci := 0; ci < 2; ci++ {
+			base := id
+			for k := 0; k < nreg[ci]; k++ {
+				id++
+				objs = append(objs, &O42{C: ci + 1, ID: id, T: 0, Size: 1, Exp: -1})
+			}
+			for k := 0; k < nas[ci]; k++ {
+				id++
+				o := &O42{C: ci + 1, ID: id, Exp: -1}
+				if k%2 == 0 {
+					o.T, o.Assoc = 2, base+1+k%(nreg[ci]/2)
+				} else {
+					o.T, o.Assoc = 1, base+nreg[ci]/2+1+k%(nreg[ci]/2)
+				}
+				objs = append(objs, o)
+			}
+		}
+		return objs, id
+	}
+	n := 3 + r.n(12)
+	nID := 16
+	used := map[[2]int]bool{}
+	var regs [4][]int
+	for len(objs) < n {
+		c := 1 + r.n(3)
+		if r.p(50) {
+			c = 1
+		}
+		id := 1 + r.n(nID)
+		if used[[2]int{c, id}] {
+			continue
+		}
+		o := &O42{C: c, ID: id, Exp: -1}
+		k := r.n(100)
+		switch {
+		case k < 50 || len(regs[c]) == 0:
+			o.T, o.Size = 0, sizeOf(r)
+			o.Attrs = map[string]string{}
+			if r.p(60) {
+				o.Attrs["A"] = []string{"x", "y"}[r.n(2)]
+			}
+			if r.p(40) {
+				o.Attrs["N"] = strconv.Itoa(r.n(30))
+			}
+			if r.p(25) {
+				o.Attrs[trapAttr] = "v"
+			}
+			if r.p(20) {
+				o.Exp = int64(r.n(10))
+			}
+			if r.p(12) {
+				o.Mark = true
+			}
+		case k < 75:
+			o.T = 2
+			o.Assoc = regs[c][r.n(len(regs[c]))]
+			if r.p(50) {
+				o.Exp = int64(r.n(10))
+			}
+		default:
+			o.T = 1
+			o.Assoc = regs[c][r.n(len(regs[c]))]
+		}
+		used[[2]int{c, id}] = true
+		objs = append(objs, o)
+		if o.T == 0 {
+			regs[c] = append(regs[c], id)
+		}
+	}
+	return objs, nID
+}
+
+func runCase42(i int, seed uint64, big int) *Case42 {
+	r := caseRng(seed, 42, i)
+	cs := &Case42{I: i, Ver: 10}
+	if r.p(35) {
+		cs.Ver = 9
+	}
+	cs.Perturb = cs.Ver == 10 && r.p(40)
+	objs, nID := gen42(r, big)
+	cs.NID, cs.NObjs = nID, len(objs)
+	if big == 0 {
+		cs.Objs = objs
+	}
+	dir, err := os.MkdirTemp(tmpBase(), "verif-c42-")
+	must(err)
+	defer os.RemoveAll(dir)
+	es := &epochState{}
+	es.e.Store(c42Epoch)
+	cur := filepath.Join(dir, "cur.db")
+	db, err := open42(cur, es, nil)
+	must(err)
+	if big > 0 {
+		for off := 0; off < len(objs); off += 500 {
+			var batch []*object.Object
+			for _, o := range objs[off:min(off+500, len(objs))] {
+				batch = append(batch, build42(o))
+			}
+			if err := db.PutBatch(batch); err != nil {
+				cs.PutErrs++
+			}
+		}
+	} else {
+		for _, o := range objs {
+			if err := db.Put(build42(o)); err != nil {
+				cs.PutErrs++
+				continue
+			}
+			if o.Mark {
+				_, err := db.MarkGarbage(mkCID(o.C), []oid.ID{id42(o.ID)}, meta.GarbageMarkDefault)
+				must(err)
+			}
+		}
+	}
+	full := big == 0
+	cs.Before = observe42(db, nID, full)
+	must(db.Close())
+	afterClose(cur, cs.Before)
+
+	old := filepath.Join(dir, "old.db")
+	copyFile(old, cur)
+	downgrade(old, cs.Ver, cs.Perturb)
+	cs.Homo0, cs.B580, _ = rawCounts(old)
+
+	// undisturbed upgrade, counting the polls of the init context
+	up := filepath.Join(dir, "up.db")
+	copyFile(up, old)
+	polls := 0
+	db, err = open42(up, es, &cntCtx{Context: context.Background(), n: &polls, closed: make(chan struct{})})
+	if err == nil {
+		cs.After = observe42(db, nID, full)
+	} else {
+		cs.After = &Obs42{}
+	}
+	must(db.Close())
+	afterClose(up, cs.After)
+	cs.Polls = polls
+
+	closed := make(chan struct{})
+	close(closed)
+	for k := 1; k <= polls && k <= 14; k++ {
+		p := filepath.Join(dir, "int"+strconv.Itoa(k)+".db")
+		copyFile(p, old)
+		n := 0
+		db, err := open42(p, es, &cntCtx{Context: context.Background(), n: &n, cancelAt: k, closed: closed})
+		st := Step42{K: k, Err1: err != nil}
+		_ = db.Close()
+		st.Homo, st.B58, st.Raw = rawCounts(p)
+		tmp := &Obs42{}
+		afterClose(p, tmp)
+		st.Version = tmp.Version
+		db, err = open42(p, es, nil)
+		if err == nil {
+			st.Obs = observe42(db, nID, full)
+		} else {
+			st.Obs = &Obs42{}
+		}
+		must(db.Close())
+		afterClose(p, st.Obs)
+		cs.Resumed = append(cs.Resumed, st)
+		_ = os.Remove(p)
+	}
+	return cs
+}
+
+func c42Main(n, big int) {
+	seed := seedEnv()
+	w := bufio.NewWriterSize(os.Stdout, 1<<20)
+	enc := json.NewEncoder(w)
+	for i := 0; i < n; i++ {
+		must(enc.Encode(runCase42(i, seed, 0)))
+	}
+	if big > 0 {
+		must(enc.Encode(runCase42(1000, seed, big)))
+	}
+	must(w.Flush())
+}
+
+func c42Replay() {}
